@@ -49,6 +49,17 @@ CHECKS = {
             "port string in MC_Ports (slashes, proto, host, hasPort, num) is trusted to describe its text.",
             "TLA+ spec + TLC exhaustive/simulate generation, replay into real server.Run, TLC trace validation of the parser",
             "DESIGN.md §3 C19"),
+    "C06": ("model_checking",
+            "Bus.tla models the bus fan-out, the filter/token chain and the wiring loop of Run (one subscription per filter and "
+            "listed channel occurrence; absent/empty expression list = no filter; any-of unanchored regex on category AND on "
+            "service; missing/non-string field = empty string); TLC checks ExactlyAdmitted, OrderPreserved and ChannelIndependence "
+            "for every configuration with 0..1 filter (900) exhaustively and sampled 2- and 4-filter configurations, each against the "
+            "full 8x8 alphabet of (category, service) values; every configuration is rendered as TOML, wired by the real server.Run "
+            "and fed the event stream through the real bus; per-channel ordered captures and tokens are compared.",
+            "Regex alphabet: literal, ^prefix, ^full$, alternation, empty; Bus!Match is their meaning; capture channels stand in "
+            "for real channels.",
+            "TLA+ spec + TLC exhaustive/simulate generation, replay into real server.Run + bus",
+            "DESIGN.md §3 C06"),
 }
 
 NOT_YET = "check not built yet in this session (see DESIGN.md §10 for the order of construction)"
